@@ -34,6 +34,9 @@ type Ledger struct {
 	TraceNo int
 	Weights map[string]int
 	Triple  bool // C13: run every step on replicas too
+	GasSweep  bool // C06/C16: sweep GasProvided over the boundary points of every call
+	Alloc     bool // C11: measure the bytes allocated by every call
+	FaultMode bool // C17: enumerate dependency faults of every successful step
 }
 
 func (d *Ledger) amt(x int64) []byte { return new(big.Int).Mul(big.NewInt(x), d.Scale).Bytes() }
@@ -125,33 +128,125 @@ type wr struct {
 }
 
 func (d *Ledger) recordMid(kind string, shard int, c *world.Call, mid int, dup bool) *world.StepResult {
-	var writes []wr
 	sh := d.W.Shards[shard]
-	sh.WriteLog = func(addr, key, val []byte) {
-		writes = append(writes, wr{append([]byte(nil), addr...), append([]byte(nil), key...), append([]byte(nil), val...)})
-	}
-	var r *world.StepResult
-	var preSnd *world.Account
-	if a := sh.Peek(c.Caller); a != nil {
-		preSnd = a.Clone(nil)
-	}
 	conc := world.Describe(kind, shard, c, mid)
 	conc["dup"] = dup
+	var pl []int64
+	used := int64(-1)
+	if kind == "exec" {
+		// probe with ample gas (all effects undone): learn the payload lengths and the consumption independently of the real step
+		var writes []wr
+		sh.WriteLog = func(addr, key, val []byte) {
+			writes = append(writes, wr{append([]byte(nil), addr...), append([]byte(nil), key...), append([]byte(nil), val...)})
+		}
+		var preSnd *world.Account
+		if a := sh.Peek(c.Caller); a != nil {
+			preSnd = a.Clone(nil)
+		}
+		pc := c.Clone()
+		pc.Gas = 1 << 40
+		pr := d.W.Probe(shard, pc, nil)
+		sh.WriteLog = nil
+		if pr.Res == "ok" {
+			pl = payloadLens(d.W, shard, pc, pr, writes, preSnd)
+			u := new(big.Int).SetUint64(pc.Gas - pr.Out.GasRemaining)
+			for _, oa := range pr.Out.OutputAccounts {
+				if oa != nil {
+					for _, ot := range oa.OutputTransfers {
+						u.Sub(u, new(big.Int).SetUint64(ot.GasLimit))
+					}
+				}
+			}
+			if u.IsInt64() && u.Sign() >= 0 {
+				used = u.Int64()
+			}
+		}
+		if d.GasSweep {
+			c.Gas = d.sweepGas(c.Fn, used)
+			conc["gas"] = fmt.Sprint(c.Gas)
+		}
+	}
+	if d.FaultMode {
+		d.faults(kind, shard, c, mid, conc)
+	}
+	var rd2, rd3 string
+	rint := true
+	if d.Triple {
+		rd2, rd3, rint = d.replicasBefore(shard, c)
+	}
+	var r *world.StepResult
+	orig := c
+	var back, pristine []byte
+	if d.Triple {
+		c, back, pristine = carved(orig)
+	}
+	var a0, bound uint64
+	if d.Alloc {
+		bound = allocBound(d.W, shard, c)
+		a0 = allocNow()
+	}
 	if kind == "deliver" {
 		r, _ = d.W.Deliver(mid, dup)
 	} else {
 		r = d.W.Run(shard, c)
 	}
-	sh.WriteLog = nil
-	ev := d.P.EventOf(kind, shard, c, r, mid, dup)
-	ev.PL = payloadLens(d.W, shard, c, r, writes, preSnd)
-	if d.Triple && r != nil {
-		d.replicas(kind, shard, c, mid, dup, r, &ev)
+	var a1 uint64
+	if d.Alloc {
+		a1 = allocNow()
+	}
+	ev := d.P.EventOf(kind, shard, orig, r, mid, dup)
+	if ev.X == nil {
+		ev.X = map[string]interface{}{}
+	}
+	if d.Alloc {
+		ev.X["allocok"] = a1-a0 <= bound
+		ev.X["alloc"] = a1 - a0
+	}
+	if d.Triple {
+		if kind != "deliver" && !inputIntact(orig, c, r.Input, back, pristine) {
+			rint = false
+		}
+		ev.X["d1"], ev.X["d2"], ev.X["d3"], ev.X["intact"] = Digest(d.W, shard, r), rd2, rd3, rint
+		c = orig
+	}
+	ev.PL = pl
+	if used >= 0 {
+		ev.X["used"] = used
 	}
 	if err := d.T.Write(&world.ALine{Ev: ev, W: d.P.World()}, conc); err != nil {
 		panic(err)
 	}
 	return r
+}
+
+var costKey = map[string]string{"ChangeOwnerAddress": "ChangeOwnerAddress", "ClaimDeveloperRewards": "ClaimDeveloperRewards", "SetUserName": "SaveUserName",
+	"SaveKeyValue": "SaveKeyValue", "ESDTTransfer": "ESDTTransfer", "ESDTBurn": "ESDTBurn", "ESDTLocalMint": "ESDTLocalMint", "ESDTLocalBurn": "ESDTLocalBurn",
+	"ESDTNFTCreate": "ESDTNFTCreate", "ESDTNFTAddQuantity": "ESDTNFTAddQuantity", "ESDTNFTBurn": "ESDTNFTBurn", "ESDTNFTTransfer": "ESDTNFTTransfer",
+	"MultiESDTNFTTransfer": "ESDTNFTMultiTransfer", "ESDTNFTAddURI": "ESDTNFTAddURI", "ESDTNFTUpdateAttributes": "ESDTNFTUpdateAttributes"}
+
+// sweepGas picks GasProvided around the interesting points: 0, the function's base cost, the total consumption, 2^64-1.
+func (d *Ledger) sweepGas(fn string, used int64) uint64 {
+	cost := int64(d.W.Sched["BuiltInCost"][costKey[fn]])
+	var cands []uint64
+	add := func(v int64) {
+		if v >= 0 {
+			cands = append(cands, uint64(v))
+		}
+	}
+	add(0)
+	add(cost - 1)
+	add(cost)
+	add(cost + 1)
+	if used >= 0 {
+		add(used - 1)
+		add(used)
+		add(used)
+		add(used + 1)
+		add(used + int64(d.R.Intn(50)))
+		add(used / 2)
+	}
+	cands = append(cands, ^uint64(0), 1<<63, 600000, 600000, 600000)
+	return cands[d.R.Intn(len(cands))]
 }
 
 // payloadLens measures, independently of the gas the function reports, the length of every marshalled
@@ -936,6 +1031,9 @@ func (d *Ledger) actMalformed() {
 
 // Setup issues tokens, grants roles and creates a few NFTs through the real functions.
 func (d *Ledger) Setup() {
+	sweep := d.GasSweep
+	d.GasSweep = false
+	defer func() { d.GasSweep = sweep }()
 	for i := 0; i < 4; i++ {
 		d.actIssue()
 	}
@@ -963,7 +1061,7 @@ func (d *Ledger) Setup() {
 // DefaultWeights returns the action mix of a profile.
 func DefaultWeights(profile string) map[string]int {
 	w := map[string]int{"issue": 4, "setrole": 5, "unsetrole": 2, "transfer": 14, "nft": 12, "multi": 12, "deliver": 18, "mintburn": 8, "esdtburn": 3,
-		"create": 7, "nftrole": 8, "freeze": 6, "pause": 4, "handover": 3, "kv": 4, "acct": 4, "oracle": 2, "malformed": 5}
+		"create": 7, "nftrole": 8, "freeze": 6, "pause": 4, "handover": 3, "kv": 4, "acct": 4, "oracle": 2, "malformed": 5, "sched": 0, "epoch": 1}
 	switch profile {
 	case "transfer":
 		w["transfer"], w["nft"], w["multi"], w["deliver"] = 20, 20, 20, 25
@@ -979,6 +1077,8 @@ func DefaultWeights(profile string) map[string]int {
 		w["create"], w["handover"], w["deliver"], w["nftrole"] = 20, 10, 20, 6
 	case "meta":
 		w["create"], w["nft"], w["multi"], w["nftrole"], w["deliver"] = 10, 22, 18, 14, 22
+	case "gas":
+		w["sched"], w["kv"], w["create"], w["nftrole"], w["nft"], w["multi"], w["acct"] = 6, 10, 12, 14, 14, 14, 8
 	case "payable":
 		w["oracle"], w["transfer"], w["nft"], w["multi"], w["deliver"] = 8, 18, 18, 18, 22
 	}
@@ -1043,6 +1143,10 @@ func (d *Ledger) Step() {
 		d.actOracle()
 	case "malformed":
 		d.actMalformed()
+	case "sched":
+		d.actSched()
+	case "epoch":
+		d.setEpoch(uint32(d.R.Intn(3)))
 	}
 }
 
@@ -1091,5 +1195,44 @@ func (d *Ledger) setEpoch(e uint32) {
 	d.T.Write(&world.ALine{Ev: ev, W: d.P.World()}, map[string]interface{}{"kind": "epoch", "epoch": e})
 }
 
-func (d *Ledger) replicas(kind string, shard int, c *world.Call, mid int, dup bool, r *world.StepResult, ev *world.AEvent) {
+
+// actSched offers a schedule: valid ones (pairwise distinct primes) and invalid ones (a zero or missing entry).
+func (d *Ledger) actSched() {
+	g := world.StdGas(d.R.Intn(2))
+	if d.chance(40) {
+		// permute the valid schedule so that every field gets a different value than before
+		vals := []uint64{}
+		for _, sec := range []string{"BuiltInCost", "BaseOperationCost"} {
+			ks := make([]string, 0)
+			for k := range g[sec] {
+				ks = append(ks, k)
+			}
+			sort.Strings(ks)
+			for _, k := range ks {
+				vals = append(vals, g[sec][k])
+			}
+			rot := 1 + d.R.Intn(len(ks)-1)
+			for i, k := range ks {
+				g[sec][k] = vals[len(vals)-len(ks)+(i+rot)%len(ks)]
+			}
+		}
+	}
+	if d.chance(40) {
+		sec := []string{"BuiltInCost", "BaseOperationCost"}[d.R.Intn(2)]
+		ks := make([]string, 0)
+		for k := range g[sec] {
+			ks = append(ks, k)
+		}
+		sort.Strings(ks)
+		k := ks[d.R.Intn(len(ks))]
+		switch d.R.Intn(3) {
+		case 0:
+			g[sec][k] = 0
+		case 1:
+			delete(g[sec], k)
+		default:
+			delete(g, sec)
+		}
+	}
+	d.setSched(g)
 }
